@@ -72,6 +72,12 @@ def encode(funcs, P, model_table=None):
             if ev[0] == 'bigint_sign_arg':
                 det_terms.append(ev[1])
     if not det_terms:
+        # the sign may be taken after the conversion to f64: the determinant is then the big integer handed to to_f64
+        for s, v in outs:
+            for ev in s.events:
+                if ev[0] == 'bigint_to_f64_arg':
+                    det_terms.append(ev[1])
+    if not det_terms:
         raise Inconclusive('the sign extraction of in_sphere_test_exact was not reached (no big-integer sign call recorded)')
     d0 = det_terms[0]
     for d in det_terms[1:]:
@@ -89,9 +95,9 @@ def exact_ref_sign(pts):
     return py_sign(ref_det(P))
 
 
-def native_signs(samples, profile='debug'):
+def native_signs(samples, profile='debug', backend='ibig'):
     lines = ['insphere_exact ' + ' '.join(str(x) for nm in NAMES for x in s[nm]) for s in samples]
-    outs = engine.native(lines, profile)
+    outs = engine.native(lines, profile, backend)
     res = []
     for o in outs:
         if o[0] != 'ok':
@@ -198,13 +204,20 @@ def check_backend(run, backend, prefix, thorough=False):
                        sample={'backend': backend, 'vars': 15, 'range': '[0,2^52)'})
     # (iii) the tail returns exactly sgn(D) for an arbitrary integer D (D abstracts the determinant term)
     D = z3.Int('D')
+    tail_bad = []
     for k, (s, val) in enumerate(outs):
         pc = [z3.substitute(c, (to_z3(code_det), D)) for c in s.pc if not isinstance(c, bool)]
         valz = to_z3(val)
         valz = z3.substitute(valz, (to_z3(code_det), D))
         sg = z3.If(D > 0, z3.RealVal(1), z3.If(D < 0, z3.RealVal(-1), z3.RealVal(0)))
-        run.prove('%s.iii path %d returns sgn(D)' % (prefix, k), pc, valz != sg, timeout=30)
+        v3, m3 = run.prove('%s.iii path %d returns sgn(D)' % (prefix, k), pc, valz != sg, timeout=30, on_sat='caller')
+        if v3 == 'sat':
+            dval = engine.model_value(m3, D)
+            tail_bad.append(py_sign(dval))
         for (spc, cond, msg) in s.side:
+            if 'to_f64 exact only within' in msg and any(e[0] == 'bigint_sign_arg' for e in s.events) is False:
+                # sign taken after the conversion: only the sign of the conversion matters (round-to-nearest keeps it), not exactness
+                continue
             c2 = z3.substitute(to_z3(cond), (to_z3(code_det), D)) if not isinstance(cond, bool) else z3.BoolVal(cond)
             spc2 = [z3.substitute(c, (to_z3(code_det), D)) for c in spc]
             run.prove('%s.iii side condition: %s' % (prefix, msg[:40]), spc2, z3.Not(c2), timeout=30, cross=False)
@@ -242,6 +255,11 @@ def check_backend(run, backend, prefix, thorough=False):
               expect='sat', cross=False)
 
     cands = []
+    if tail_bad:
+        # the sign extraction returns something else than sgn(D) for a determinant of sign s: native points with that determinant sign
+        pool = gen_samples(run.seed + 17, 200) + cospherical_samples(run.seed + 18, 200)
+        for sg_ in sorted(set(tail_bad)):
+            cands.extend([smp for smp in pool if exact_ref_sign(smp) == sg_][:3])
     if v2 == 'sat':
         cands.append({nm: [engine.model_value(m2, x) for x in P[nm]] for nm in NAMES})
         # sample points where the *encoding* (validated against the native function above) disagrees in sign
@@ -267,18 +285,18 @@ def check_backend(run, backend, prefix, thorough=False):
     return cands, P, code_det
 
 
-def confirm_and_report(run, pid, cands, what):
-    """native replay of candidate points; VIOLATION only on a native sign mismatch"""
+def confirm_and_report(run, pid, cands, what, backend='ibig'):
+    """native replay of candidate points (against a build with the given backend); VIOLATION only on a native sign mismatch"""
     if not cands:
         return
     reproduced = False
     for prof in ('debug', 'release'):
-        nat = native_signs(cands, prof)
+        nat = native_signs(cands, prof, backend)
         for c, n in zip(cands, nat):
             exp = exact_ref_sign(c)
             if n is None or n != exp:
-                path = engine.save_replay(pid, {'kind': 'insphere_exact', 'points': c, 'expected_sign': exp, 'native': n, 'profile': prof})
-                run.violation('%s: in_sphere_test_exact returns %r, sign of the lifted determinant is %d at %r (%s build)' % (what, n, exp, c, prof), path)
+                path = engine.save_replay(pid, {'kind': 'insphere_exact', 'points': c, 'expected_sign': exp, 'native': n, 'profile': prof, 'backend': backend})
+                run.violation('%s: in_sphere_test_exact returns %r, sign of the lifted determinant is %d at %r (%s build, backend %s)' % (what, n, exp, c, prof, backend), path)
                 reproduced = True
                 break
         if reproduced:
@@ -290,7 +308,7 @@ def confirm_and_report(run, pid, cands, what):
 def replay_file(path):
     d = json.load(open(path))
     c = d['points']
-    n = native_signs([c], d.get('profile', 'debug'))[0]
+    n = native_signs([c], d.get('profile', 'debug'), d.get('backend', 'ibig'))[0]
     exp = exact_ref_sign(c)
     print('native=%r expected=%d' % (n, exp))
     return 1 if n != exp else 0
